@@ -29,24 +29,23 @@ fn iterate(b: &[u8]) -> Result<Result<Vec<String>, RtcpParseError>, drive::Panic
     })
 }
 
-/// What a member must contribute to the iteration of the compound it is in.
-fn member_iteration(m: &Cfg, how: How) -> Result<(Vec<u8>, Vec<String>), String> {
+/// A member's own image and the lengths of the leaf packets it consists of.
+fn member_iteration(m: &Cfg, how: How) -> Result<(Vec<u8>, Vec<usize>), String> {
     match m {
         Cfg::Compound(inner) => {
             let mut bytes = vec![];
-            let mut items = vec![];
+            let mut lens = vec![];
             for x in inner {
-                let (b, i) = member_iteration(x, how)?;
+                let (b, l) = member_iteration(x, how)?;
                 bytes.extend_from_slice(&b);
-                items.extend(i);
+                lens.extend(l);
             }
-            Ok((bytes, items))
+            Ok((bytes, lens))
         }
         leaf => {
             let b = build_bytes(leaf, how).map_err(|e| format!("member {} cannot be built on its own: {}", leaf.shape(), e.render()))?;
-            let data = drive::exact(&b);
-            let r = call(|| format!("{:?}", Packet::parse(&data))).map_err(|p| format!("Packet::parse panics on a member image: {}", p.msg))?;
-            Ok((b, vec![r]))
+            let n = b.len();
+            Ok((b, vec![n]))
         }
     }
 }
@@ -134,13 +133,13 @@ pub fn check_c14(ctx: &mut Ctx, cfg: &Cfg, how: How) {
             // members on their own
             let mut sum = 0usize;
             let mut concat = vec![];
-            let mut expect_items = vec![];
+            let mut member_lens: Vec<usize> = vec![];
             for m in members {
                 match member_iteration(m, how) {
-                    Ok((b, it)) => {
+                    Ok((b, lens)) => {
                         sum += b.len();
                         concat.extend_from_slice(&b);
-                        expect_items.extend(it);
+                        member_lens.extend(lens);
                     }
                     Err(_) => {
                         ctx.class("c14:skipped:member-unbuildable-alone");
@@ -158,7 +157,8 @@ pub fn check_c14(ctx: &mut Ctx, cfg: &Cfg, how: How) {
                 ctx.violate("write", "compound", &got.class(), case, format!("write_into == Ok({n})"), got.render());
                 return;
             }
-            if buf != concat {
+            // FIR entries have no defined order (hash map): compare with FIR entries sorted
+            if buf != concat && crate::mon::writers::canon_fir_only(&buf) != crate::mon::writers::canon_fir_only(&concat) {
                 let d = buf.iter().zip(&concat).position(|(a, b)| a != b).unwrap_or(0);
                 ctx.violate(
                     "bytes-are-concatenation",
@@ -176,6 +176,23 @@ pub fn check_c14(ctx: &mut Ctx, cfg: &Cfg, how: How) {
                     Err(p) => ctx.violate("parse-back", "compound", "panic", case, "Compound::parse + iteration return", format!("panic at {}: {}", short_site(&p.site), p.msg)),
                     Ok(Err(e)) => ctx.violate("parse-back", "compound", variant_name(&format!("{e:?}")), case, "Compound::parse accepts the written compound", format!("Err({e:?})")),
                     Ok(Ok(items)) => {
+                        // "one packet per member, each equal to the member parsed on its own": the bytes were
+                        // just shown to be the members' images (FIR entries in any order), so the reference is
+                        // the generic parser on each member-sized tile of the written bytes; iteration stops
+                        // after the first member that does not parse (C11), e.g. an Unknown-built packet that
+                        // carries a known type number and a body that is not valid for it.
+                        let mut expect_items: Vec<String> = vec![];
+                        let mut off = 0usize;
+                        for l in &member_lens {
+                            let tile = &data[off..off + l];
+                            off += l;
+                            let r = call(|| format!("{:?}", Packet::parse(tile))).unwrap_or_else(|p| format!("panic: {}", p.msg));
+                            let stop = r.starts_with("Err");
+                            expect_items.push(r);
+                            if stop {
+                                break;
+                            }
+                        }
                         if items != expect_items {
                             let k = items.iter().zip(&expect_items).position(|(a, b)| a != b).unwrap_or(items.len().min(expect_items.len()));
                             ctx.violate(
@@ -934,7 +951,7 @@ pub fn check_c19_cfg(ctx: &mut Ctx, cfg: &Cfg, how: How) {
         }
     };
     let model = enc::enc_unchecked(cfg);
-    if bytes != model {
+    if bytes != model && crate::mon::writers::canon_fir_only(&bytes) != crate::mon::writers::canon_fir_only(&model) {
         let d = bytes.iter().zip(&model).position(|(a, b)| a != b).unwrap_or(bytes.len().min(model.len()));
         ctx.violate(
             "image",
